@@ -41,9 +41,12 @@ ClientVerified == (res.set /\ res.kind = "get" /\ res.found) =>
                                     /\ IF res.mut THEN MutOK(r) /\ r.seq = res.seq ELSE ImmOK(r)
 ClientHighest == (res.set /\ res.kind = "get" /\ res.found /\ res.mut) =>
                     \A r \in Verified : r.seq <= res.seq
-\* getput.Put hands its caller the highest verified sequence number (0 if none)
+\* getput.Put hands its caller the highest verified sequence number, or 0 for "nothing found".  0 is always
+\* admitted: the traversal may report "stalled" on its still empty frontier before the starting nodes are
+\* added (DESIGN section 8, observation O1; C03's linearization reading), and then the lookup ends before any
+\* reply is looked at -- for a get that is "value not found", for a put it is sequence number 0
 PutSeqHighest == (res.set /\ res.kind = "put") =>
-                    res.seq = MaxSeq({0} \cup {r.seq : r \in Verified})
+                    res.seq = 0 \/ res.seq = MaxSeq({0} \cup {r.seq : r \in Verified})
 \* not part of a listed property: an acceptable value that was delivered is found
 ClientFinds == (res.set /\ res.kind = "get" /\ ~res.found) => ~\E r \in rcvd : Acceptable(r)
 =============================================================================
